@@ -318,6 +318,20 @@ func afPrelude() []afCase {
 	ac := base(signIn("google", good(), "sess", sess(nil), nil), signIn("google", good(), "sess", sess(func(s *afSess) { s.Email = "bob@x.io" }), nil))
 	ac.Domains, ac.Addresses = nil, []string{"Ann@x.io"}
 	cases = append(cases, ac)
+	// a deployment whose authenticator lives *outside* every proxy root domain: hosts that merely end in the authenticator's
+	// own name are not below a root domain
+	out := base(
+		signIn("google", uri("https://a.apps.y.io/oauth2/callback"), "sess", sess(nil), nil),
+		signIn("google", uri("https://evil-sso-auth.x.io/cb"), "sess", sess(nil), nil),
+		signIn("google", uri("https://sso-auth.x.io/cb"), "sess", sess(nil), nil),
+		signIn("google", uri("https://login.notsso-auth.x.io/cb"), "sess", sess(nil), nil),
+		signIn("google", uri("https://x.io/cb"), "sess", sess(nil), nil),
+		afStep{Slug: "google", Endpoint: "sign_out", Method: "POST", Sign: &afSign{URI: "https://evil-sso-auth.x.io/", In: "form"}, Cookie: "sess", Sess: sess(nil)},
+		afStep{Slug: "google", Endpoint: "sign_out", Method: "POST", Sign: &afSign{URI: "https://a.apps.y.io/", In: "form"}, Cookie: "sess", Sess: sess(nil)},
+	)
+	out.Roots = []string{".apps.y.io"}
+	cases = append(cases, out)
+	cases = append(cases, afCase{ConfigCheck: true})
 	return cases
 }
 
